@@ -194,14 +194,21 @@ func (c *Conn) AsyncRead() {
 
 	// If is not EPOLLONESHOT, the reading event may be re-dispatched for more than
 	// once, here we reduce the duplicate reading events.
-	cnt := atomic.AddInt32(&c.readEvents, 1)
-	if cnt > 2 {
-		atomic.AddInt32(&c.readEvents, -1)
-		return
-	}
-	// Only handle it when it's the first reading event.
-	if cnt > 1 {
-		return
+	// The counter stays in [0, 2]: adding first and taking the surplus back
+	// afterwards could race with the read task's own decrements and leave it
+	// negative, and then the next task would never see it reach zero.
+	for {
+		cnt := atomic.LoadInt32(&c.readEvents)
+		if cnt >= 2 {
+			return
+		}
+		if atomic.CompareAndSwapInt32(&c.readEvents, cnt, cnt+1) {
+			// Only handle it when it's the first reading event.
+			if cnt > 0 {
+				return
+			}
+			break
+		}
 	}
 
 	g.IOExecute(func(pBuf *[]byte) {
